@@ -21,7 +21,8 @@ warnings.simplefilter("ignore")
 ERRN = {1: "IndexError", 2: "ValueError", 3: "TypeError", 4: "WidgetError", 5: "CanvasError", 6: "ListBoxError",
         7: "AttrSpecError", 8: "KeyError", 9: "RuntimeError", 10: "OtherError"}
 CF = {None: 0, "above": 1, "below": 2}
-KEYC = {"up": 1, "down": 2, "j": 3, "k": 4}
+KEYC = {"up": 1, "down": 2, "j": 3, "k": 4, "home": 5, "end": 6, "page up": 7, "page down": 8}
+VALC = {"top": [1], "middle": [2], "bottom": [3]}
 COLS = 8
 EDITS = ("insert", "delete", "replace", "reflow", "clear", "imul", "iadd", "setslice", "reverse", "sort")
 REAL_COLS = 12
@@ -281,21 +282,23 @@ class C07(core.Check):
             pe = [1]
         else:
             pe = [2, CF.get(p[0], 0), p[2] if isinstance(p[2], int) else -1]
-        st = [(-1 if w is None else pos), lb.offset_rows, lb.inset_fraction[0], lb.inset_fraction[1], pe]
-        if lb.set_focus_valign_pending is not None:
-            st.append("valign-pending")
-        return st
+        vp = lb.set_focus_valign_pending
+        if vp is None:
+            ve = [0]
+        elif str(getattr(vp[0], "value", vp[0])) in VALC:
+            ve = VALC[str(getattr(vp[0], "value", vp[0]))]
+        else:
+            ve = [4, vp[1]]
+        return [(-1 if w is None else pos), lb.offset_rows, lb.inset_fraction[0], lb.inset_fraction[1], pe, ve]
 
     @staticmethod
     def modelled(case, a):
-        """actions the Coq model executes itself (everything else is re-synchronised from the
-        implementation state after the step's render)"""
+        """actions the Coq model executes itself: everything on the labelled item widgets (histories on real
+        widgets are judged by the oracle only)"""
         if case.get("kind", "item") != "item":
             return False
         k = a[0]
-        if k == "key":
-            return a[1] in KEYC
-        return k in ("none", "mouse", "set_focus", "shift", "change", "mcv") or k in EDITS
+        return k in ("none", "key", "mouse", "set_focus", "valign", "shift", "change", "mcv") or k in EDITS
 
     def do_action(self, lb, body, kind, a, size, nxt):
         """returns the 'act' observable or None"""
@@ -390,9 +393,7 @@ class C07(core.Check):
             out, ax = {}, {}
             steps.append(out)
             aux.append(ax)
-            # an alignment request that is still pending is completed inside the next action or render:
-            # set_focus_valign is not modelled, such a step is re-synchronised
-            ax["mod"] = self.modelled(case, a) and lb.set_focus_valign_pending is None
+            ax["mod"] = self.modelled(case, a)
             try:
                 act = self.do_action(lb, body, kind, a, size, nxt)
             except core.MachineryError:
@@ -490,7 +491,10 @@ class C07(core.Check):
                 if k == "none":
                     plan.append(("model", []))
                 elif k == "key":
-                    plan.append(("model", [2, maxrow, KEYC[a[1]]]))
+                    plan.append(("model", [2, maxrow, KEYC.get(a[1], 9)]))
+                elif k == "valign":
+                    v = a[1]
+                    plan.append(("model", [10] + (VALC[v] if isinstance(v, str) else [4, v[1]])))
                 elif k == "mouse":
                     plan.append(("model", [3, maxrow, a[1], a[2]]))
                 elif k == "set_focus":
@@ -511,7 +515,7 @@ class C07(core.Check):
                     plan.append(("stop",))
                     break
                 st = r["st"] if "st" in r else ax["sa"]
-                plan.append(("sync", [6] + self.enc_items(ax["items"]) + [st[0]] + [5, st[0], st[1], st[2], st[3]] + list(st[4])))
+                plan.append(("sync", [6] + self.enc_items(ax["items"]) + [st[0]] + [5, st[0], st[1], st[2], st[3]] + list(st[4]) + list(st[5])))
         return plan
 
     def encode(self, case):
@@ -519,7 +523,7 @@ class C07(core.Check):
             return None
         st = case.get("state")
         l = self.enc_items(case["items"]) + [case.get("focus", 0) if case["items"] else -1]
-        l += ([st[0], st[1], st[2], 0] if st is not None else [0, 0, 1, 1])
+        l += ([st[0], st[1], st[2], 0, 0] if st is not None else [0, 0, 1, 1, 0])
         ops = []
         for stp, pl in zip(case["steps"], self.plan(case)):
             if pl[0] == "stop":
@@ -535,7 +539,9 @@ class C07(core.Check):
             f, o, n, d = next(it), next(it), next(it), next(it)
             p = next(it)
             pe = [p] if p in (0, 1) else [2, next(it), next(it)]
-            return [f, o, n, d, pe]
+            v = next(it)
+            ve = [v] if v != 4 else [4, next(it)]
+            return [f, o, n, d, pe, ve]
 
         def reply():
             """one model reply: (err | None, outcome, state)"""
@@ -589,7 +595,7 @@ class C07(core.Check):
                     out["n"] = r.get("n")
                     break
                 out["view"], out["cur"] = oc
-                out["st"] = st + r.get("st", [])[5:]      # the alignment-pending marker is not part of the model
+                out["st"] = st
                 out["f"] = st[0]
                 for kk in ("fcy", "hs", "sel", "ids", "vid"):
                     out[kk] = r.get(kk)
@@ -1081,21 +1087,24 @@ class C07(core.Check):
                   "every focus, offset_rows >= 0, inset fraction 0 <= n < d, maxrow >= 1, focus flag and cursor row inside the "
                   "focus widget, render does not raise and shows the slice [p, p+maxrow) of the stacked item rows followed by "
                   "blanks only; blanks only when p = 0; a focus item with >= 1 row has a row in the slice; the cursor row is in "
-                  "the slice at the canvas cursor.  writers_establish_view_ok + history_keeps_view_ok: shift_focus and "
-                  "change_focus (the only writers of offset_rows/inset_fraction - ast scan of all of urwid on every run) always "
-                  "leave such a state, and any history of render / up / down / item keys / mouse press and wheel / set_focus / "
-                  "direct shift_focus, change_focus, make_cursor_visible calls / walker edits, interleaved with arbitrary "
-                  "un-modelled operations that leave such a state, keeps it.  render_never_raises / "
-                  "render_never_raises_any_history: after any such history render completes a pending 'first selectable' or "
-                  "set_focus request - also when the old focus position was deleted meanwhile or the list was emptied - "
-                  "without raising and shows such a window; no premise on the pending request is left (before the repair "
-                  "93ada30 this was refuted for stale requests; the history is kept as a regression case in corpus/C07).  "
-                  "mouse_press_focuses: a button-1 press on a row showing a selectable item focuses it.  "
-                  "NOT modelled, hence correspondence/oracle only: page up/down, home/end, set_focus_valign ('does not raise' for "
-                  "them; the states they leave are covered by view_ok through the writers argument); exceptions raised by "
-                  "keypress / mouse_event are judged by a regression oracle only (signatures recorded from the reference tree); "
-                  "canvas-level trimming of multi-shard items and cache invalidation by walker edits (oracle only); widgets whose rows()/render()/cursor disagree; wrap-around "
-                  "walkers; maxrow = 0.")
+                  "the slice at the canvas cursor.  writers_establish_view_ok + history_keeps_view_ok + "
+                  "page_and_alignment_ops_keep_view_ok: shift_focus and change_focus (with any snap_rows; the only writers of "
+                  "offset_rows/inset_fraction - ast scan of all of urwid on every run) always leave such a state, and any history "
+                  "of render / up / down / PAGE UP / PAGE DOWN / HOME / END / item keys / mouse press and wheel / set_focus / "
+                  "SET_FOCUS_VALIGN / direct shift_focus, change_focus, make_cursor_visible calls / walker edits keeps it (all of "
+                  "these are now inside the model and compared exactly; OSync remains only as a stand-in for foreign code).  "
+                  "render_never_raises / render_never_raises_any_history: after any such history render completes a pending "
+                  "'first selectable', set_focus (also a stale one) or set_focus_valign request without raising and shows such a "
+                  "window.  mouse_press_focuses.  page_down_raises_only_for_a_candidate_above_the_page + "
+                  "page_down_handled_without_such_a_candidate: 'page down' either handles the key or raises ListBoxError, and "
+                  "raises only if a candidate widget with rows lies completely above the top of the new page; "
+                  "page_down_never_raises_refuted: that situation is reachable with ordinary widgets (heights 1,1,2, box of 2 "
+                  "rows; replayed on the implementation).  NOT proved (page_up_never_raises_full, stated): 'page up' never "
+                  "raises - correspondence and regression oracle only.  "
+                  "NOT modelled: widgets with move_cursor_to_coords (real Edit histories are oracle only), widgets whose "
+                  "rows()/render()/cursor disagree, wrap-around walkers, maxrow = 0; canvas-level trimming of multi-shard items "
+                  "and cache invalidation by walker edits are oracle only; exceptions out of keypress / mouse_event are judged "
+                  "by a regression oracle (signatures recorded from the reference tree).")
     level_note = ("Trusted: Coq kernel; the hand transcription Model/ListBoxView.v (validated by exact correspondence: 17 100 "
                   "directly written states + ~2000 random histories per quick run on three walker kinds); the ast scan "
                   "that finds every assignment to offset_rows/inset_fraction; ExtrOcamlBasic extraction + OCaml driver; the "
@@ -1125,7 +1134,8 @@ class C07(core.Check):
     assumptions = [
         "item widgets: rows() >= 0, rows() and render() agree, the cursor row reported lies inside the widget (hypotheses heights_ok / cursor_ok of view_ok)",
         "maxrow >= 1 (StateOK); positions are list indices, no wrap-around walker",
-        "page up/down, home/end, set_focus_valign are not modelled: any state they leave is ViewOK because they write the view state only through shift_focus/change_focus (ast scan); exceptions raised by keypress itself are recorded, not flagged",
+        "the item widgets of the model have no move_cursor_to_coords: change_focus ends after the offset assignment (cursor_coords only sets pref_col); histories with real Edit widgets are judged by the oracle only",
+        "an exception out of keypress/mouse_event is accepted only with a signature recorded in corpus/C07/baseline_keypress_exceptions.json (page down / ListBoxError, characterised by page_down_raises_only_for_a_candidate_above_the_page)",
     ]
 
 
